@@ -555,6 +555,7 @@ void SmootherGive::smoothingForLoop(Vector<double>& x, const Vector<double>& rhs
             /* Inside Black Section */
             #pragma omp for
             for (int circle_task = 0; circle_task < num_circle_tasks; circle_task += 2) {
+                VERIF_ITER(circle_task);
                 int i_r = num_circle_tasks - circle_task - 1;
                 applyAscOrthoCircleSection(i_r, SmootherColor::Black, x, rhs, temp);
             }
@@ -562,6 +563,7 @@ void SmootherGive::smoothingForLoop(Vector<double>& x, const Vector<double>& rhs
             /* Outside Black Section (Part 1)*/
             #pragma omp for
             for (int circle_task = -1; circle_task < num_circle_tasks; circle_task += 4) {
+                VERIF_ITER(circle_task);
                 int i_r = num_circle_tasks - circle_task - 1;
                 applyAscOrthoCircleSection(i_r, SmootherColor::Black, x, rhs, temp);
             }
@@ -569,6 +571,7 @@ void SmootherGive::smoothingForLoop(Vector<double>& x, const Vector<double>& rhs
             /* Outside Black Section (Part 2)*/
             #pragma omp for
             for (int circle_task = 1; circle_task < num_circle_tasks; circle_task += 4) {
+                VERIF_ITER(circle_task);
                 int i_r = num_circle_tasks - circle_task - 1;
                 applyAscOrthoCircleSection(i_r, SmootherColor::Black, x, rhs, temp);
             }
@@ -576,6 +579,7 @@ void SmootherGive::smoothingForLoop(Vector<double>& x, const Vector<double>& rhs
             /* Black Circle Smoother */
             #pragma omp for
             for (int circle_task = 0; circle_task < num_circle_tasks; circle_task += 2) {
+                VERIF_ITER(circle_task);
                 int i_r = num_circle_tasks - circle_task - 1;
                 solveCircleSection(i_r, x, temp, circle_solver_storage_1, circle_solver_storage_2);
             }
@@ -585,6 +589,7 @@ void SmootherGive::smoothingForLoop(Vector<double>& x, const Vector<double>& rhs
             /* Inside White Section */
             #pragma omp for nowait
             for (int circle_task = 1; circle_task < num_circle_tasks; circle_task += 2) {
+                VERIF_ITER(circle_task);
                 int i_r = num_circle_tasks - circle_task - 1;
                 applyAscOrthoCircleSection(i_r, SmootherColor::White, x, rhs, temp);
             }
@@ -593,6 +598,7 @@ void SmootherGive::smoothingForLoop(Vector<double>& x, const Vector<double>& rhs
             /* Inside Black Section */
             #pragma omp for
             for (int radial_task = 0; radial_task < num_radial_tasks; radial_task += 2) {
+                VERIF_ITER(radial_task);
                 int i_theta = radial_task;
                 applyAscOrthoRadialSection(i_theta, SmootherColor::Black, x, rhs, temp);
             }
@@ -602,6 +608,7 @@ void SmootherGive::smoothingForLoop(Vector<double>& x, const Vector<double>& rhs
             /* Outside White Section (Part 1)*/
             #pragma omp for nowait
             for (int circle_task = 0; circle_task < num_circle_tasks; circle_task += 4) {
+                VERIF_ITER(circle_task);
                 int i_r = num_circle_tasks - circle_task - 1;
                 applyAscOrthoCircleSection(i_r, SmootherColor::White, x, rhs, temp);
             }
@@ -610,6 +617,7 @@ void SmootherGive::smoothingForLoop(Vector<double>& x, const Vector<double>& rhs
             /* Outside Black Section (Part 1) */
             #pragma omp for
             for (int radial_task = 1; radial_task < num_radial_tasks; radial_task += 4) {
+                VERIF_ITER(radial_task);
                 int i_theta = radial_task;
                 applyAscOrthoRadialSection(i_theta, SmootherColor::Black, x, rhs, temp);
             }
@@ -619,6 +627,7 @@ void SmootherGive::smoothingForLoop(Vector<double>& x, const Vector<double>& rhs
             /* Outside White Section (Part 2)*/
             #pragma omp for nowait
             for (int circle_task = 2; circle_task < num_circle_tasks; circle_task += 4) {
+                VERIF_ITER(circle_task);
                 int i_r = num_circle_tasks - circle_task - 1;
                 applyAscOrthoCircleSection(i_r, SmootherColor::White, x, rhs, temp);
             }
@@ -627,6 +636,7 @@ void SmootherGive::smoothingForLoop(Vector<double>& x, const Vector<double>& rhs
             /* Outside Black Section (Part 2) */
             #pragma omp for
             for (int radial_task = 3; radial_task < num_radial_tasks; radial_task += 4) {
+                VERIF_ITER(radial_task);
                 int i_theta = radial_task;
                 applyAscOrthoRadialSection(i_theta, SmootherColor::Black, x, rhs, temp);
             }
@@ -634,12 +644,14 @@ void SmootherGive::smoothingForLoop(Vector<double>& x, const Vector<double>& rhs
             /* White Circle Smoother */
             #pragma omp for nowait
             for (int circle_task = 1; circle_task < num_circle_tasks; circle_task += 2) {
+                VERIF_ITER(circle_task);
                 int i_r = num_circle_tasks - circle_task - 1;
                 solveCircleSection(i_r, x, temp, circle_solver_storage_1, circle_solver_storage_2);
             }
             /* Black Radial Smoother */
             #pragma omp for
             for (int radial_task = 0; radial_task < num_radial_tasks; radial_task += 2) {
+                VERIF_ITER(radial_task);
                 int i_theta = radial_task;
                 solveRadialSection(i_theta, x, temp, radial_solver_storage);
             }
@@ -650,18 +662,21 @@ void SmootherGive::smoothingForLoop(Vector<double>& x, const Vector<double>& rhs
             /* Inside White Section */
             #pragma omp for
             for (int radial_task = 1; radial_task < num_radial_tasks; radial_task += 2) {
+                VERIF_ITER(radial_task);
                 int i_theta = radial_task;
                 applyAscOrthoRadialSection(i_theta, SmootherColor::White, x, rhs, temp);
             }
             /* Outside White Section (Part 1) */
             #pragma omp for
             for (int radial_task = 0; radial_task < num_radial_tasks; radial_task += 4) {
+                VERIF_ITER(radial_task);
                 int i_theta = radial_task;
                 applyAscOrthoRadialSection(i_theta, SmootherColor::White, x, rhs, temp);
             }
             /* Outside White Section (Part 2) */
             #pragma omp for
             for (int radial_task = 2; radial_task < num_radial_tasks; radial_task += 4) {
+                VERIF_ITER(radial_task);
                 int i_theta = radial_task;
                 applyAscOrthoRadialSection(i_theta, SmootherColor::White, x, rhs, temp);
             }
@@ -669,6 +684,7 @@ void SmootherGive::smoothingForLoop(Vector<double>& x, const Vector<double>& rhs
             /* White Radial Smoother */
             #pragma omp for
             for (int radial_task = 1; radial_task < num_radial_tasks; radial_task += 2) {
+                VERIF_ITER(radial_task);
                 int i_theta = radial_task;
                 solveRadialSection(i_theta, x, temp, radial_solver_storage);
             }
